@@ -4,7 +4,7 @@
    eval_item / var_eval = the code after the two fix: commits; eval_item_orig = the pinned commit (refuted below).
    clean / plain_refs: no collection type / no referenced type carries allowed values (where the pinned commit was right). *)
 From Coq Require Import List NArith Bool Arith.
-From DV Require Import C16.Model C16.Proofs C16.Rel C11.Model C11.Proofs C11.ConfModel C11.ConfProofs.
+From DV Require Import C16.Model C16.Proofs C16.Rel C11.Model C11.Proofs C11.ConfModel C11.ConfProofs C11.NullAlt.
 Import ListNotations.
 
 (* the copy-pasted closures all compute the one generic function of their simple type *)
@@ -205,6 +205,26 @@ Example C11_nonvacuous_whole :
     conforms_to t (VAtom SString 27%N) = false /\ eval_item 3 D_nest T (VAtom SString 27%N) = VNull.
 Proof. exact nonvacuous_whole. Qed.
 
+(* The literal null among allowed values.  Spec (av_ok, used by every theorem above): a value is allowed when some alternative is satisfied, so a
+   null alternative is inert wherever it stands.  Code (av_ok_code: eval_in_list stops at a null alternative): it never admits what the Spec rejects,
+   it is the Spec when there is no null alternative or the null stands last (the lists the check generates), and it differs exactly when the value
+   satisfies no alternative in front of the first null but one behind it - the listed finding null-alternative-first, with its witness. *)
+Theorem C11_null_alternative_inert : forall ts1 ts2 v, av_ok (Some (ts1 ++ UNull :: ts2)) v = av_ok (Some (ts1 ++ ts2)) v.
+Proof. exact null_inert. Qed.
+Theorem C11_null_alternative_code_sound : forall ts v, av_ok_code (Some ts) v = true -> av_ok (Some ts) v = true.
+Proof. exact code_le_spec. Qed.
+Theorem C11_null_alternative_last_agrees : forall ts v, has_null ts = false ->
+  av_ok_code (Some ts) v = av_ok (Some ts) v /\ av_ok_code (Some (ts ++ [UNull])) v = av_ok (Some (ts ++ [UNull])) v.
+Proof. intros ts v H. split; [apply code_is_spec_without_null | apply code_is_spec_null_last]; exact H. Qed.
+Theorem C11_null_alternative_code_vs_spec : forall ts v,
+  av_ok_code (Some ts) v = av_ok (Some ts) v \/
+  (av_ok_code (Some ts) v = false /\ av_ok (Some ts) v = true /\ has_null ts = true /\ existsb (sat v) (before_null ts) = false).
+Proof. exact code_vs_spec. Qed.
+Theorem C11_null_alternative_first_refuted :
+  av_ok (Some [UNull; ULit SNumber 5%N]) (VAtom SNumber 5%N) = true /\ av_ok_code (Some [UNull; ULit SNumber 5%N]) (VAtom SNumber 5%N) = false /\
+  av_ok_code (Some [ULit SNumber 5%N; UNull]) (VAtom SNumber 5%N) = true /\ av_ok_code (Some [ULit SNumber 5%N; UNull]) (VAtom SNumber 6%N) = false.
+Proof. exact null_first_witness. Qed.
+
 Print Assumptions C11_copies_uniform_simple.
 Print Assumptions C11_copies_uniform_collection.
 Print Assumptions C11_copies_uniform_variable.
@@ -248,3 +268,8 @@ Print Assumptions C11_output_spec.
 Print Assumptions C11_output_fuel_sufficient.
 Print Assumptions C11_nonvacuous_spec.
 Print Assumptions C11_nonvacuous_whole.
+Print Assumptions C11_null_alternative_inert.
+Print Assumptions C11_null_alternative_code_sound.
+Print Assumptions C11_null_alternative_last_agrees.
+Print Assumptions C11_null_alternative_code_vs_spec.
+Print Assumptions C11_null_alternative_first_refuted.
